@@ -64,6 +64,10 @@ def cache_workloads():
     W.append(('evict', three, [('evict', 't')]))
     W.append(('expire', three, [('expire',)]))
     W.append(('cull', three, [('cull',)]))
+    many = [S('k%02d' % i, ('$B', 12 + i % 3)) for i in range(13)]
+    W.append(('cull-evicts', many + [S('n', 1), ('reset', 'cull_limit', 0),
+                              ('reset', 'size_limit', 0)],
+              [('cull', 'all')]))
     W.append(('block-two-writes', [S('a', 1)],
               [('block', (S('a', BIG), S('b', BIGB)), False)]))
     W.append(('block-replace-file', [S('a', ('$T', 13)), S('b', BIGB)],
@@ -81,6 +85,8 @@ def do_cache_op(cache, op):
             for b in op[1]:
                 impl_op(cache, b)
         return None
+    if op[0] == 'cull':
+        return impl_op(cache, ('cull',))
     return impl_op(cache, op)
 
 
@@ -89,6 +95,12 @@ def model_cache_op(spec, op):
         for b in op[1]:
             model_op(spec, b)
         return None
+    if op[0] == 'cull' and len(op) > 1 and op[1] == 'all':
+        # explicit cull() of a cache whose size limit is 0: evicts in pages
+        # of 10 until nothing is left
+        gone = list(spec.items)
+        spec.forget(gone)
+        return len(gone)
     if op[0] in ('expire', 'cull'):
         dead = spec.expired_keys(strict=False)
         spec.forget(dead)
@@ -158,6 +170,9 @@ def cache_case(name, init, program, tier):
     for op in init:
         if op[0] == 'tick':
             ENV.now += op[1]
+            continue
+        if op[0] == 'reset':
+            c.reset(op[1], op[2])    # e.g. shrink the size limit afterwards
             continue
         impl_op(c, op)
         model_op(spec0, op)
